@@ -463,6 +463,12 @@ class Component( ComponentLevel7 ):
             if other not in removed_connectables and other not in removed_consts:
               top._dsl.all_adjacency[other].remove( x )
               if isinstance( other, Const ):
+                # The connection is re-created from the constant's value,
+                # with a new Const object: drop the old one once nothing
+                # else is connected to it
+                if not top._dsl.all_adjacency[other]:
+                  del top._dsl.all_adjacency[other]
+                  other._dsl.parent_obj._dsl.consts.discard( other )
                 other = other._dsl.const
               saved_connections.append( (other, "top"+repr(x)[1:]) ) # other is from outside
           del top._dsl.all_adjacency[x]
@@ -473,6 +479,8 @@ class Component( ComponentLevel7 ):
             # other must be in the dict
             if other not in removed_connectables:
               parent._dsl.adjacency[other].remove( x )
+              if isinstance( other, Const ) and not parent._dsl.adjacency[other]:
+                del parent._dsl.adjacency[other]
             elif (id(other), id(x)) not in saved_loopbacks:
               # A connection the PARENT made between two ports of the
               # removed component: both ends disappear, so it has to be
@@ -504,7 +512,7 @@ class Component( ComponentLevel7 ):
       # enough. Thus I'm just removing them right now.
       new_connect_order = []
       for (x, y) in parent._dsl.connect_order:
-        if x not in removed_signals and y not in removed_signals: # TODO method port
+        if x not in removed_connectables and y not in removed_connectables:
           new_connect_order.append( (x, y) )
 
       parent._dsl.connect_order = new_connect_order
